@@ -6,10 +6,15 @@ use std::path::Path;
 use std::sync::Arc;
 
 pub mod c01;
+pub mod c02;
+pub mod c03;
+pub mod c05;
 pub mod c06;
 pub mod c07;
+pub mod c09;
 pub mod c11;
 pub mod c12;
+pub mod c13;
 pub mod c16;
 
 pub struct Prop {
@@ -27,7 +32,7 @@ pub fn no_extra(_: &Ctx) -> Map<String, Value> {
 }
 
 pub fn all() -> Vec<&'static Prop> {
-    vec![&c01::PROP, &c06::PROP, &c07::PROP, &c11::PROP, &c12::PROP, &c16::PROP]
+    vec![&c01::PROP, &c02::PROP, &c03::PROP, &c05::PROP, &c06::PROP, &c07::PROP, &c09::PROP, &c11::PROP, &c12::PROP, &c13::PROP, &c16::PROP]
 }
 
 pub fn find(id: &str) -> Option<&'static Prop> {
@@ -101,7 +106,7 @@ pub fn replay_regressions(ctx: &Arc<Ctx>, prop: &Prop) {
         let kind = v["kind"].as_str().unwrap_or("").to_string();
         let case = RawCase { kind: kind.clone(), v: v["case"].clone() };
         n += 1;
-        ctx.run_single("regress", &kind, &case, |c| match (prop.replay)(ctx, &c.kind, &c.v) {
+        ctx.run_single("regress", "regress", &case, |c| match (prop.replay)(ctx, &c.kind, &c.v) {
             Some(Verdict::Pass(mut p)) => {
                 p.class = format!("{}:{}", c.kind, p.class);
                 Verdict::Pass(p)
